@@ -1,3 +1,5 @@
+mod cat;
+mod cexp;
 mod model;
 mod node;
 mod pexp;
